@@ -178,3 +178,93 @@ pub open spec fn empty_positions(flags: Seq<u8>, mark: nat) -> Seq<usize>
         if flags[mark - 1] == 0u8 { rest.push((mark - 1) as usize) } else { rest }
     }
 }
+
+// ---- C07 binding lemmas (pure spec level), under the NAMED idealisation that the 2-to-1 hash is injective ----
+pub open spec fn hash_injective<H: Hasher>() -> bool {
+    forall|a: H::Fr, b: H::Fr, c: H::Fr, d: H::Fr| #[trigger] H::spec_hash2(a, b) == #[trigger] H::spec_hash2(c, d) ==> a == c && b == d
+}
+pub open spec fn path_step<H: Hasher>(acc: H::Fr, e: (H::Fr, u8)) -> H::Fr {
+    if e.1 == 0 { H::spec_hash2(acc, e.0) } else { H::spec_hash2(e.0, acc) }
+}
+// folding a concatenation: first the prefix, then the rest
+pub proof fn lemma_fold_split<H: Hasher>(acc: H::Fr, p: Seq<(H::Fr, u8)>, m: int)
+    requires 0 <= m <= p.len()
+    ensures fold_path::<H>(acc, p) == fold_path::<H>(fold_path::<H>(acc, p.take(m)), p.skip(m))
+    decreases m
+{
+    if m == 0 {
+        assert(p.take(0).len() == 0);
+        assert(p.skip(0) =~= p);
+    } else {
+        let nxt = path_step::<H>(acc, p[0]);
+        let rest = p.subrange(1, p.len() as int);
+        lemma_fold_split::<H>(nxt, rest, m - 1);
+        assert(p.take(m)[0] == p[0]);
+        assert(p.take(m).subrange(1, m) =~= rest.take(m - 1));
+        assert(p.skip(m) =~= rest.skip(m - 1));
+        assert(fold_path::<H>(acc, p.take(m)) == fold_path::<H>(nxt, rest.take(m - 1)));
+    }
+}
+// with an injective hash the fold is injective in its start value
+pub proof fn lemma_fold_injective_acc<H: Hasher>(x: H::Fr, y: H::Fr, p: Seq<(H::Fr, u8)>)
+    requires hash_injective::<H>(), fold_path::<H>(x, p) == fold_path::<H>(y, p)
+    ensures x == y
+    decreases p.len()
+{
+    if p.len() > 0 {
+        let rest = p.subrange(1, p.len() as int);
+        lemma_fold_injective_acc::<H>(path_step::<H>(x, p[0]), path_step::<H>(y, p[0]), rest);
+    }
+}
+// binding: the ideal path of position i folds to the ideal root only from the stored leaf
+pub proof fn lemma_binding_leaf<H: Hasher>(leaves: Seq<H::Fr>, depth: nat, i: nat, other: H::Fr)
+    requires hash_injective::<H>(), i < pow2(depth),
+             fold_path::<H>(other, ideal_path::<H>(leaves, depth, i)) == ideal_root::<H>(leaves, depth),
+    ensures other == leaves[i as int]
+{
+    lemma_fold_ideal::<H>(leaves, depth, i, 0);
+    assert(pow2(0) == 1) by { lemma2_to64(); }
+    assert(i / pow2(0) == i) by { vstd::arithmetic::div_mod::lemma_div_basics(i as int); }
+    let p = ideal_path::<H>(leaves, depth, i);
+    assert(p.subrange(0, depth as int) =~= p);
+    assert(ideal_node::<H>(leaves, depth, depth, i) == leaves[i as int]);
+    lemma_fold_injective_acc::<H>(other, leaves[i as int], p);
+}
+// a path altered in one sibling value does not fold to the same value
+pub proof fn lemma_altered_sibling_rejected<H: Hasher>(x: H::Fr, p: Seq<(H::Fr, u8)>, q: Seq<(H::Fr, u8)>, m: int)
+    requires hash_injective::<H>(), p.len() == q.len(), 0 <= m < p.len(),
+             forall|k: int| 0 <= k < p.len() && k != m ==> p[k] == q[k],
+             p[m].1 == q[m].1, p[m].0 != q[m].0,
+    ensures fold_path::<H>(x, p) != fold_path::<H>(x, q)
+{
+    lemma_fold_split::<H>(x, p, m); lemma_fold_split::<H>(x, q, m);
+    assert(p.take(m) =~= q.take(m));
+    let a = fold_path::<H>(x, p.take(m));
+    let ps = p.skip(m); let qs = q.skip(m);
+    let rest = ps.subrange(1, ps.len() as int);
+    assert(qs.subrange(1, qs.len() as int) =~= rest);
+    assert(ps[0] == p[m] && qs[0] == q[m]);
+    let u = path_step::<H>(a, p[m]); let v = path_step::<H>(a, q[m]);
+    assert(u != v);
+    if fold_path::<H>(u, rest) == fold_path::<H>(v, rest) { lemma_fold_injective_acc::<H>(u, v, rest); }
+}
+// a path altered in one direction bit, at a level where the two children differ, does not fold to the same value
+pub proof fn lemma_altered_bit_rejected<H: Hasher>(x: H::Fr, p: Seq<(H::Fr, u8)>, q: Seq<(H::Fr, u8)>, m: int)
+    requires hash_injective::<H>(), p.len() == q.len(), 0 <= m < p.len(),
+             forall|k: int| 0 <= k < p.len() && k != m ==> p[k] == q[k],
+             p[m].0 == q[m].0, (p[m].1 == 0) != (q[m].1 == 0),
+             // the two children at level m differ: the running value and the sibling
+             fold_path::<H>(x, p.take(m)) != p[m].0,
+    ensures fold_path::<H>(x, p) != fold_path::<H>(x, q)
+{
+    lemma_fold_split::<H>(x, p, m); lemma_fold_split::<H>(x, q, m);
+    assert(p.take(m) =~= q.take(m));
+    let a = fold_path::<H>(x, p.take(m));
+    let ps = p.skip(m); let qs = q.skip(m);
+    let rest = ps.subrange(1, ps.len() as int);
+    assert(qs.subrange(1, qs.len() as int) =~= rest);
+    assert(ps[0] == p[m] && qs[0] == q[m]);
+    let u = path_step::<H>(a, p[m]); let v = path_step::<H>(a, q[m]);
+    assert(u != v);
+    if fold_path::<H>(u, rest) == fold_path::<H>(v, rest) { lemma_fold_injective_acc::<H>(u, v, rest); }
+}
